@@ -20,14 +20,37 @@
 //!          `get_log_entries`, height from `get_log_heights`)
 //! Hashes are printed as numbers: header hash of op j = j+1, junk k = 800+k, bogus k = 900+k,
 //! anything else 999.
+//!
+//! Concurrent cases (C05, overlapping ingest calls): payload
+//!   `C <db> <mode> <authors> <logs>|<ops>|<deliveries>|<batch>|<schedule>`
+//!   db    = `mem` (`SqliteStore::temporary()`, one connection) | `file` (file-backed database,
+//!           default pool of `SqliteStoreBuilder::new()`)
+//!   mode  = `hand`  every call of the batch is a boxed `ingest_operation` future on the same store;
+//!                   they are polled by hand in the order of `<schedule>` (indices into the batch),
+//!                   afterwards round-robin until all have returned;
+//!           `join`  `join_all` of the futures on a multi-thread runtime;
+//!           `spawn` one spawned task per call on a multi-thread runtime.
+//!   The deliveries run first, one after the other (ingest + log-prune, as above).  Then the batch
+//!   runs concurrently (ingest only), then the log-prune step of every prune-flagged call that
+//!   returned Ok runs, in batch order.
+//! Result: `<sequential part as above> ;; B=<res>,<res>../ins=<id>,<id>../<dump>/<dump> ;; <info>`
+//!   B    result per call of the batch         ins  hash-field names of the rows inserted by the
+//!   batch in `rowid` (= commit) order          dumps: all logs before / after the prune steps
+//!   info: completion order and number of polls (not compared).
 use std::collections::HashMap;
+use std::future::Future;
 use std::panic::{AssertUnwindSafe, catch_unwind};
+use std::pin::Pin;
+use std::sync::Arc;
+use std::sync::atomic::{AtomicBool, AtomicU64, Ordering};
+use std::task::{Context, Poll, Wake, Waker};
+use std::time::{Duration, Instant};
 
 use p2panda_core::{
     Body, Hash, Header, Operation, OperationError, SeqNum, SigningKey, VerifyingKey,
     validate_operation,
 };
-use p2panda_store::SqliteStore;
+use p2panda_store::{SqliteStore, SqliteStoreBuilder};
 use p2panda_store::logs::LogStore;
 use p2panda_stream::Processor;
 use p2panda_stream::ingest::{IngestError, ingest_operation};
@@ -222,7 +245,278 @@ async fn dump(store: &SqliteStore, na: u64, nl: u64, names: &HashMap<Hash, u64>)
     out.join("+")
 }
 
+struct Flag(AtomicBool);
+
+impl Wake for Flag {
+    fn wake(self: Arc<Self>) {
+        self.0.store(true, Ordering::SeqCst);
+    }
+    fn wake_by_ref(self: &Arc<Self>) {
+        self.0.store(true, Ordering::SeqCst);
+    }
+}
+
+static FILE_COUNTER: AtomicU64 = AtomicU64::new(0);
+
+fn res_name(op: &Op, r: &Result<bool, IngestError>) -> String {
+    match r {
+        Ok(true) => "I".to_string(),
+        Ok(false) => "A".to_string(),
+        Err(e) => format!("R:{}", reason(op, e)),
+    }
+}
+
+async fn max_rowid(store: &SqliteStore) -> i64 {
+    let r: (i64,) = sqlx::query_as("SELECT COALESCE(MAX(rowid), 0) FROM operations_v1")
+        .fetch_one(store.pool())
+        .await
+        .expect("max rowid");
+    r.0
+}
+
+async fn inserted_since(store: &SqliteStore, rowid: i64, by_hex: &HashMap<String, u64>) -> String {
+    let rows: Vec<(String,)> =
+        sqlx::query_as("SELECT hash FROM operations_v1 WHERE rowid > ? ORDER BY rowid")
+            .bind(rowid)
+            .fetch_all(store.pool())
+            .await
+            .expect("rows by rowid");
+    rows.iter()
+        .map(|(h,)| by_hex.get(h).copied().unwrap_or(999).to_string())
+        .collect::<Vec<_>>()
+        .join(",")
+}
+
+type IngestFut<'a> = Pin<Box<dyn Future<Output = Result<bool, IngestError>> + 'a>>;
+
+/// Polls the calls by hand: first in the order given by `sched`, then round-robin. After a poll
+/// that returned `Pending` the scheduler lets the runtime work (spawned rollback tasks, sqlx
+/// workers) until the call was woken or a short grace period passed (it waits for the permit).
+async fn hand_poll(
+    store: &SqliteStore,
+    batch: &[&Built],
+    sched: &[usize],
+    info: &mut String,
+) -> Vec<String> {
+    let k = batch.len();
+    let mut futs: Vec<Option<IngestFut>> = batch
+        .iter()
+        .map(|b| {
+            let f: IngestFut = Box::pin(ingest_operation(store, &b.op, &b.log, &b.log, b.prune));
+            Some(f)
+        })
+        .collect();
+    let flags: Vec<Arc<Flag>> = (0..k).map(|_| Arc::new(Flag(AtomicBool::new(false)))).collect();
+    let wakers: Vec<Waker> = flags.iter().map(|f| Waker::from(f.clone())).collect();
+    let mut results: Vec<Option<String>> = vec![None; k];
+    let mut done: Vec<usize> = Vec::new();
+    let mut polls = 0usize;
+    let deadline = Instant::now() + Duration::from_secs(30);
+    let grace = Duration::from_micros(1500);
+    let mut labels: Vec<usize> = sched.iter().copied().filter(|i| *i < k).collect();
+    let mut pos = 0usize;
+    while done.len() < k && Instant::now() < deadline {
+        if pos == labels.len() {
+            labels.extend(0..k);
+        }
+        let i = labels[pos];
+        pos += 1;
+        if results[i].is_some() {
+            continue;
+        }
+        flags[i].0.store(false, Ordering::SeqCst);
+        let mut cx = Context::from_waker(&wakers[i]);
+        polls += 1;
+        let polled = {
+            let fut = futs[i].as_mut().unwrap();
+            catch_unwind(AssertUnwindSafe(|| fut.as_mut().poll(&mut cx)))
+        };
+        match polled {
+            Err(_) => {
+                futs[i] = None;
+                results[i] = Some("P".to_string());
+                done.push(i);
+            }
+            Ok(Poll::Ready(r)) => {
+                futs[i] = None;
+                results[i] = Some(res_name(&batch[i].op, &r));
+                done.push(i);
+            }
+            Ok(Poll::Pending) => {
+                let t0 = Instant::now();
+                loop {
+                    tokio::task::yield_now().await;
+                    if flags[i].0.load(Ordering::SeqCst) || t0.elapsed() > grace {
+                        break;
+                    }
+                    std::thread::sleep(Duration::from_micros(20));
+                }
+            }
+        }
+        // let spawned tasks (rollback after a dropped permit) make progress
+        tokio::task::yield_now().await;
+    }
+    drop(futs);
+    *info = format!(
+        "done={} polls={}",
+        done.iter().map(|x| x.to_string()).collect::<Vec<_>>().join(","),
+        polls
+    );
+    results.into_iter().map(|r| r.unwrap_or_else(|| "HANG".to_string())).collect()
+}
+
+fn run_conc(payload: &str) -> String {
+    let parts: Vec<&str> = payload.split('|').collect();
+    assert!(parts.len() == 5, "concurrent payload needs 5 parts");
+    let head: Vec<&str> = parts[0].split_whitespace().collect();
+    assert!(head.len() == 5 && head[0] == "C", "concurrent header");
+    let (db, mode) = (head[1], head[2]);
+    let na: u64 = head[3].parse().unwrap();
+    let nl: u64 = head[4].parse().unwrap();
+    let mut built: Vec<Built> = Vec::new();
+    for (i, d) in parts[1].split(';').filter(|s| !s.trim().is_empty()).enumerate() {
+        let b = build(i, d.trim(), &built);
+        built.push(b);
+    }
+    let mut names: HashMap<Hash, u64> = HashMap::new();
+    for k in 0..16 {
+        names.insert(junk(k), 800 + k);
+        names.insert(bogus(k), 900 + k);
+    }
+    for (i, b) in built.iter().enumerate() {
+        names.entry(b.op.header.hash()).or_insert(i as u64 + 1);
+    }
+    let by_hex: HashMap<String, u64> = names.iter().map(|(h, n)| (h.to_hex(), *n)).collect();
+    let valid: String = built
+        .iter()
+        .map(|b| if validate_operation(&b.op).is_ok() { '1' } else { '0' })
+        .collect();
+    let deliveries: Vec<usize> = h_common::nums(parts[2]).into_iter().map(|x| x as usize).collect();
+    let batch_idx: Vec<usize> = h_common::nums(parts[3]).into_iter().map(|x| x as usize).collect();
+    let sched: Vec<usize> = h_common::nums(parts[4]).into_iter().map(|x| x as usize).collect();
+
+    let rt = if mode == "hand" {
+        tokio::runtime::Builder::new_current_thread().enable_all().build().unwrap()
+    } else {
+        tokio::runtime::Builder::new_multi_thread()
+            .worker_threads(3)
+            .enable_all()
+            .build()
+            .unwrap()
+    };
+    let mut file: Option<std::path::PathBuf> = None;
+    let store = if db == "file" {
+        let path = std::env::temp_dir().join(format!(
+            "h_ingest_{}_{}.sqlite",
+            std::process::id(),
+            FILE_COUNTER.fetch_add(1, Ordering::SeqCst)
+        ));
+        let _ = std::fs::remove_file(&path);
+        let url = format!("sqlite://{}", path.display());
+        file = Some(path);
+        rt.block_on(SqliteStoreBuilder::new().database_url(&url).build())
+            .expect("file database")
+    } else {
+        rt.block_on(SqliteStore::temporary())
+    };
+    let pruner: LogPrune<SqliteStore, LogPruneArgs<VerifyingKey, u64, SeqNum>, u64, Ext> =
+        LogPrune::new(store.clone());
+    let mut steps: Vec<String> = vec![format!("V={valid}")];
+    for d in deliveries {
+        let b = &built[d];
+        let r = rt.block_on(async {
+            let r = ingest_operation(&store, &b.op, &b.log, &b.log, b.prune).await;
+            if r.is_ok() && b.prune {
+                let args = LogPruneArgs::PruneEntriesUntil {
+                    author: b.op.header.verifying_key,
+                    log_id: b.log,
+                    seq_num: b.op.header.seq_num,
+                };
+                pruner.process(args).await.expect("log prune");
+                let _ = pruner.next().await;
+            }
+            r
+        });
+        let res = res_name(&b.op, &r);
+        let d = rt.block_on(dump(&store, na, nl, &names));
+        steps.push(format!("{res}/{d}"));
+    }
+
+    let batch: Vec<&Built> = batch_idx.iter().map(|i| &built[*i]).collect();
+    let before_rowid = rt.block_on(max_rowid(&store));
+    let mut info = String::new();
+    let results: Vec<String> = match mode {
+        "hand" => rt.block_on(hand_poll(&store, &batch, &sched, &mut info)),
+        "join" => rt.block_on(async {
+            let futs: Vec<_> = batch
+                .iter()
+                .map(|b| ingest_operation(&store, &b.op, &b.log, &b.log, b.prune))
+                .collect();
+            let rs = tokio::time::timeout(Duration::from_secs(30), futures_util::future::join_all(futs)).await;
+            match rs {
+                Ok(rs) => rs.iter().zip(batch.iter()).map(|(r, b)| res_name(&b.op, r)).collect(),
+                Err(_) => batch.iter().map(|_| "HANG".to_string()).collect(),
+            }
+        }),
+        "spawn" => rt.block_on(async {
+            let mut handles = Vec::new();
+            for b in batch.iter() {
+                let store = store.clone();
+                let (op, log, prune) = (b.op.clone(), b.log, b.prune);
+                handles.push(tokio::spawn(async move {
+                    let r = ingest_operation(&store, &op, &log, &log, prune).await;
+                    res_name(&op, &r)
+                }));
+            }
+            let mut out = Vec::new();
+            for h in handles {
+                out.push(match tokio::time::timeout(Duration::from_secs(30), h).await {
+                    Ok(Ok(r)) => r,
+                    Ok(Err(_)) => "P".to_string(),
+                    Err(_) => "HANG".to_string(),
+                });
+            }
+            out
+        }),
+        other => panic!("unknown mode {other}"),
+    };
+    let ins = rt.block_on(inserted_since(&store, before_rowid, &by_hex));
+    let before = rt.block_on(dump(&store, na, nl, &names));
+    rt.block_on(async {
+        for (b, r) in batch.iter().zip(results.iter()) {
+            if (r == "I" || r == "A") && b.prune {
+                let args = LogPruneArgs::PruneEntriesUntil {
+                    author: b.op.header.verifying_key,
+                    log_id: b.log,
+                    seq_num: b.op.header.seq_num,
+                };
+                pruner.process(args).await.expect("log prune");
+                let _ = pruner.next().await;
+            }
+        }
+    });
+    let after = rt.block_on(dump(&store, na, nl, &names));
+    if let Some(path) = file {
+        rt.block_on(store.pool().close());
+        let _ = std::fs::remove_file(&path);
+        let _ = std::fs::remove_file(format!("{}-wal", path.display()));
+        let _ = std::fs::remove_file(format!("{}-shm", path.display()));
+    }
+    format!(
+        "{} ;; B={}/ins={}/{}/{} ;; {}",
+        steps.join(" ; "),
+        results.join(","),
+        ins,
+        before,
+        after,
+        info
+    )
+}
+
 fn run_case(payload: &str) -> String {
+    if payload.starts_with("C ") {
+        return run_conc(payload);
+    }
     let parts: Vec<&str> = payload.split('|').collect();
     assert!(parts.len() == 3, "payload needs 3 parts");
     let dims = h_common::nums(parts[0]);
